@@ -170,6 +170,7 @@ type c13Scenario struct {
 	RST       bool   `json:"rst"`
 	Key       string `json:"key"`
 	YieldSeed uint64 `json:"yield_seed"`
+	HoldMs    int    `json:"writer_held_ms,omitempty"` // writer-held-long: how long the one write callback lasts (default 3600)
 }
 
 // c13Run executes one scenario; returns violations (signature, detail), whether it was inconclusive, and whether the
@@ -201,6 +202,19 @@ func c13Run(srv *svc.Server, sc c13Scenario, r *core.Rand) (viol [][2]string, in
 				}
 				body := []byte{1, 0, 0, 0, 1, 4, byte(i), 0, 0, 0}
 				res := sendCmd(srv.G, t.Phone, consts.P8103SetTerminalParams, body, timeout, timeout+slack)
+				mu.Lock()
+				results = append(results, res.kind)
+				mu.Unlock()
+			}(i)
+		}
+	}
+	launchLim := func(n int, to, limit time.Duration) {
+		for i := 0; i < n; i++ {
+			wg.Add(1)
+			go func(i int) {
+				defer wg.Done()
+				body := []byte{1, 0, 0, 0, 1, 4, byte(i), 0, 0, 0}
+				res := sendCmd(srv.G, t.Phone, consts.P8103SetTerminalParams, body, to, limit)
 				mu.Lock()
 				results = append(results, res.kind)
 				mu.Unlock()
@@ -275,12 +289,42 @@ func c13Run(srv *svc.Server, sc c13Scenario, r *core.Rand) (viol [][2]string, in
 			t.Close()
 			return nil, true, false, nil
 		}
-		svc.SlowWrite.Store(t.Phone, 3600*time.Millisecond)
+		hold := 3600 * time.Millisecond
+		if sc.HoldMs > 0 {
+			hold = time.Duration(sc.HoldMs) * time.Millisecond
+		}
+		svc.SlowWrite.Store(t.Phone, hold)
 		t.Write(t.Frame(0x0002, 5, nil))
 		time.Sleep(20 * time.Millisecond)
 		svc.SlowWrite.Delete(t.Phone)
-		launch(sc.K, 0)
-		time.Sleep(3800 * time.Millisecond)
+		launchLim(sc.K, timeout, hold+timeout+slack)
+		time.Sleep(hold + 200*time.Millisecond)
+		closeIt()
+		time.Sleep(300 * time.Millisecond)
+	case "no-timeout-silent-peer":
+		// commands without a timeout (negative duration: the caller waits for the response or for the connection to end) to a
+		// terminal that reads them and stays silent for 9 s — longer than any guard an implementation may add on the caller's
+		// side — then answers the first one and goes away: every call returns then, and the process is still there
+		if !joined() {
+			t.Close()
+			return nil, true, false, nil
+		}
+		launchLim(sc.K, -1, 9*time.Second+slack)
+		var first *svc.Rx
+		for i := 0; i < sc.K && i < 3; i++ { // (the command queue holds 3: later ones are written as earlier ones complete)
+			rx, ok, to := t.Next(5 * time.Second)
+			if to || !ok {
+				break
+			}
+			if first == nil && rx.F != nil {
+				first = &rx
+			}
+		}
+		time.Sleep(9 * time.Second)
+		if first != nil {
+			t.Write(t.Frame(0x0001, 100, []byte{byte(first.F.Serial >> 8), byte(first.F.Serial), byte(first.F.ID >> 8), byte(first.F.ID), 0}))
+			time.Sleep(50 * time.Millisecond)
+		}
 		closeIt()
 		time.Sleep(300 * time.Millisecond)
 	case "at-timer-expiry":
@@ -419,6 +463,30 @@ func c13Worker(c *core.Collector, x *Ctx) {
 			c.Violate(v[0], v[1], sc)
 		}
 	}
+	var longWG sync.WaitGroup
+	if x.Batch == 0 {
+		// two 10-second scenarios in the background of the grid (own keys)
+		for li, sc := range []c13Scenario{
+			{Point: "writer-held-long", K: 3, TimeoutMs: 100, RST: true, Key: "1900778", HoldMs: 6500},
+			{Point: "no-timeout-silent-peer", K: 4, TimeoutMs: 100, RST: false, Key: "1900779"},
+		} {
+			longWG.Add(1)
+			go func(li int, sc c13Scenario) {
+				defer longWG.Done()
+				x.Journal.Log(true, "long scenario %+v", sc)
+				viol, incon, _, res := c13Run(srv, sc, core.NewRand(c.Seed, "c13long", uint64(li)))
+				c.Evals(int64(len(res)))
+				c.Count("calls_in_ten_second_scenarios", int64(len(res)))
+				if incon {
+					c.Inconclusive()
+				}
+				for _, v := range viol {
+					c.Violate(v[0], v[1], sc)
+				}
+			}(li, sc)
+		}
+	}
+	defer longWG.Wait()
 	per := c.N(100, 160)
 	r := core.NewRand(c.Seed, "c13", uint64(x.Batch))
 	perm := r.Perm(len(grid))
@@ -475,6 +543,7 @@ func c13Worker(c *core.Collector, x *Ctx) {
 		}(i, sc)
 	}
 	wg.Wait()
+	longWG.Wait()
 	for k, v := range kinds {
 		c.Count("result_"+k, v)
 	}
